@@ -594,7 +594,7 @@ def do_setup():
         if not bins:
             return 2
         # warm the Kani build (compiles /repo's working tree for the model checker)
-        p = subprocess.run(["cargo", "kani", "--target-dir", KANI_TARGET, "--only-codegen", "--exact", "--harness", "hand::smoke", "-Z", "stubbing"],
+        p = subprocess.run(["cargo", "kani", "--target-dir", KANI_TARGET, "--only-codegen", "--exact", "--harness", "hand::base::smoke", "-Z", "stubbing"],
                            cwd=HARNESS, env=ENV, stdout=subprocess.PIPE, stderr=subprocess.STDOUT, text=True)
         if p.returncode != 0:
             log(p.stdout[-3000:])
@@ -635,7 +635,7 @@ def do_run(names, timeout=900):
         for h in sorted(full, key=lambda h: results[h]["duration_s"] or 1e9):
             e = results[h]
             v, why = classify(e)
-            print(h, v, why, "t=%.1fs" % (e["duration_s"] or -1), "solver=%s" % e["stats"].get("runtime_solver_s"),
+            print(h, v, why, "t=%.1fs" % (e["duration_s"] or -1), "solver=%s" % (e["stats"] or {}).get("runtime_solver_s"),
                   [f["description"] for f in e["failed"] if f["status"] == "Failure"][:6], e["covers"])
         print("wall %.0fs" % wall)
     return 0
